@@ -1021,6 +1021,9 @@ func (c *SpecCtx) applySpecFunc(sf *SpecFunc, e *ECall) SVal {
 			if g.noDefine == 0 {
 				h = g.define("Hsf", h)
 			}
+			if hs == bvSort(8) && g.declared["bs_abs"] {
+				g.noteAbsHeap(h.S)
+			}
 			ats = append(ats, h)
 		}
 		if len(ats) == 0 {
